@@ -24,6 +24,8 @@ def main():
         for f in "BHJM":
             v = getattr(magpy, "get" + f)(src, obs, squeeze=False)
             res[f] = {"shape": list(v.shape), "finite": np.isfinite(v).all(axis=-1).reshape(-1).tolist()}
+            if case.get("want_values") and f in "BHJ":  # the triangle-sheet classes: values for the accuracy assertions of the parent
+                res[f]["val"] = np.asarray(v, dtype=float).reshape(-1, 3).tolist()
         out.append({"id": case["id"], "res": res})
     json.dump(out, open(sys.argv[1] + ".out", "w"))
 
